@@ -129,6 +129,13 @@ func rulesSpec(prop string) func(tier, scenario string) seqx.Spec {
 						r.pre.Add(r.Apply(seqx.Ev("Assoc", int64(p), int64(p))).Viols...)
 					}
 				}
+				if scenario == "rules-recycled" {
+					// second start state: A has had two sessions that its re-association ended, so two released
+					// SEIDs wait in the free list (SEID recycling starts inside the depth bound)
+					for _, e := range []seqx.Event{seqx.Ev("Est", 0, 0), seqx.Ev("Est", 0, 1), seqx.Ev("Assoc", 0, 0)} {
+						r.pre.Add(r.Apply(e).Viols...)
+					}
+				}
 				return r
 			}}
 	}
@@ -776,6 +783,12 @@ func runRules(prop, tier, bound string, assumptions ...string) {
 	spec := rulesSpec(prop)(tier, "rules")
 	// both map iteration orders; quick: C01 only (C05 quick already runs into its deadline with one order)
 	st := seqx.ExploreOrders(run, spec, tier, smp, &total, tier == "thorough" || prop == "C01")
+	if prop == "C01" {
+		st2 := seqx.ExploreOrders(run, rulesSpec(prop)(tier, "rules-recycled"), tier, smp, &total, tier == "thorough")
+		if st2.DepthDone < st.DepthDone {
+			st.DepthDone = st2.DepthDone
+		}
+	}
 	seqx.Finish(run, total, smp, fmt.Sprintf(bound, spec.MaxDepth, st.DepthDone))
 	for _, a := range assumptions {
 		run.Assumption(a)
@@ -786,7 +799,7 @@ func runRules(prop, tier, bound string, assumptions ...string) {
 }
 
 func RunC01(tier string) {
-	runRules("C01", tier, "2 peers, <=2 (thorough 3) live sessions, single-IE modifications over every verb x kind for a created and a never-created id, data-plane faults armed at every offset 0..3 (thorough 0..7) before/after effect, <=1 (thorough 2) faults per history; start state: both peers associated; all histories to depth %d from there (completed %d)")
+	runRules("C01", tier, "2 peers, <=2 (thorough 3) live sessions, single-IE modifications over every verb x kind for a created and a never-created id, data-plane faults armed at every offset 0..3 (thorough 0..7) before/after effect, <=1 (thorough 2) faults per history; start states: (1) both peers associated, (2) the same after A established two sessions and re-associated (two released SEIDs in the free list); all histories to depth %d from each (completed %d)")
 }
 
 func RunC05(tier string) {
